@@ -72,8 +72,16 @@ type Violation struct {
 type failSignal struct{ v *Violation }
 
 // Note appends a human-readable line to the concrete trace of the case.
+// notesMax caps the trace of a case (VERIF_NOTES_MAX raises it for debugging).
+var notesMax = func() int {
+	if n, err := strconv.Atoi(os.Getenv("VERIF_NOTES_MAX")); err == nil && n > 0 {
+		return n
+	}
+	return 400
+}()
+
 func (c *C) Note(format string, args ...interface{}) {
-	if len(c.notes) < 400 {
+	if len(c.notes) < notesMax {
 		c.notes = append(c.notes, fmt.Sprintf(format, args...))
 	}
 }
@@ -290,6 +298,9 @@ func (r *Run) exec(src func(c *C) Src, prop func(c *C), replaying bool, rethrow 
 				viol = &Violation{Key: key, Msg: fmt.Sprintf("panic: %v\n%s", p, trimStack(debug.Stack()))}
 			}
 			viol.Test = r.test
+			if replaying && os.Getenv("VERIF_NOTES_MAX") != "" { // tooling: the full trace of a replayed failure
+				fmt.Fprintf(os.Stderr, "=== trace of the failing case\n%s\n", strings.Join(c.notes, "\n"))
+			}
 			r.lastFail = &CaseFile{Property: r.ID, Test: r.test, Key: viol.Key, Msg: viol.Msg, Draws: c.draws, Notes: c.notes}
 			return
 		}
